@@ -518,7 +518,8 @@ def run(ctx):
     other = fx[0][1]
     for name, raw in sample:
         try:
-            txid = TX.Tx.parse(io.BytesIO(raw)).id()
+            with contextlib.redirect_stdout(io.StringIO()):
+                txid = TX.Tx.parse(io.BytesIO(raw)).id()
         except Exception:
             continue
         true_id = hashlib.sha256(hashlib.sha256(raw).digest()).digest()[::-1].hex() if raw[4:5] != b"\x00" else txid
